@@ -416,3 +416,42 @@ def rule_keep_eof(ctx, prop):
                                       p.loc(t["sp"]), cfg)
             rep.floor("pop paths of pop_until_no_whitespace", m, 2, cfg)
     return rep
+
+
+def rule_span_side(ctx, prop):
+    """sibling agreement inside the trivia traits: the leading trivia of a node that starts with a `( [ { <` span lives on the
+    span's opening token, the trailing trivia of a node that ends with one on its closing token - in the getters
+    (Get*Trivia) and in the setters (Update*Trivia) alike"""
+    rep = Report(prop, "R-KEEP(d)", "Get/Update Leading trivia impls go through `span.tokens().0`, Trailing ones through "
+                                    "`span.tokens().1`: getter and setter of one side talk about the same token")
+    for cfg, prog in ctx.programs.items():
+        n = 0
+        for f in prog.fns("stylua_lib"):
+            m = re.search(r"as formatters::trivia(_util)?::(Get|Update)(Leading|Trailing)Trivia>::(\w+)$", f.path)
+            if not m:
+                continue
+            side = m.group(3)
+            want = "0" if side == "Leading" else "1"
+            for b, t in f.calls():
+                c = callee(t)
+                if not re.search(r"(Get|Update)" + side + r"Trivia>?::(leading_trivia|trailing_trivia|update_leading_trivia|"
+                                 r"update_trailing_trivia|leading_comments|trailing_comments)$", c):
+                    continue
+                if not t["args"] or is_const(t["args"][0]):
+                    continue
+                root, steps = access_path(f, t["args"][0])
+                if root[0] != "call" or not callee(f.blocks[root[1]]["term"]).endswith("ContainedSpan::tokens"):
+                    continue
+                if not steps or steps[0][0] != "f":
+                    continue
+                n += 1
+                ok = steps[0][1] == want
+                rep.inst(f"{f.key} {side.lower()} trivia through tokens().{steps[0][1]}", None, cfg, ok=ok)
+                if not ok:
+                    rep.violation(f"{f.key} span-token-side tokens().{steps[0][1]}",
+                                  f"{f.path} takes the {side.lower()} trivia of a node from `tokens().{steps[0][1]}` of its "
+                                  f"bracket pair (expected `.{want}`): the getter and the setter of this side no longer talk about "
+                                  f"the same token, so comments read through one are not the ones replaced through the other and "
+                                  f"get deleted or duplicated", f.loc(t["sp"]), cfg)
+        rep.floor("span-token accesses in the trivia traits", n, 3, cfg)
+    return rep
